@@ -95,6 +95,53 @@ def rust_run(lines: list[str]) -> list[dict]:
     return out
 
 
+def py_run(cmds: list[dict], script: str = 'pyharness.py', hashseed: str = '0', extra_env=None) -> list[dict]:
+    """Run the Python harness (inside the repo's interpreter, importing the CURRENT working tree)."""
+    e = dict(os.environ)
+    e['PYTHONPATH'] = os.path.join(REPO, 'generation/src') + ':' + os.path.join(VERIF, 'harness/py')
+    e['PYTHONHASHSEED'] = hashseed
+    e['PYTHONDONTWRITEBYTECODE'] = '1'
+    if extra_env:
+        e.update(extra_env)
+    r = subprocess.run([PY, os.path.join(VERIF, 'harness/py', script)], input='\n'.join(json.dumps(c) for c in cmds) + '\n',
+                       capture_output=True, text=True, env=e)
+    out = [json.loads(l) for l in r.stdout.splitlines() if l.strip()]
+    if len(out) != len(cmds):
+        raise MachineryError(f'python harness answered {len(out)} of {len(cmds)} commands; rc={r.returncode}\n' + r.stderr[-2000:])
+    return out
+
+
+_UNIV = None
+
+
+def universes() -> dict:
+    """The closed term universes, generated by TLC from spec/MLUniverse.tla (cached per spec text)."""
+    global _UNIV
+    if _UNIV is not None:
+        return _UNIV
+    src = ''.join(open(os.path.join(SPEC, f)).read() for f in ('MLCore.tla', 'MLUniverse.tla', 'MC_Universe.tla'))
+    h = hashlib.sha256(src.encode()).hexdigest()[:16]
+    os.makedirs(BUILD, exist_ok=True)
+    cache = os.path.join(BUILD, f'universe-{h}.json')
+    if not os.path.exists(cache):
+        wd = workdir('universe')
+        res = run_tlc('MC_Universe', 'SPECIFICATION Spec\n', wd, workers=1)
+        tlc_must_be_clean(res, 'MC_Universe')
+        u = {}
+        for line in res.out.splitlines():
+            line = line.strip()
+            if line.startswith('"') and line.endswith('"'):
+                sp = json.loads(line)
+                name, _, body = sp.partition(' ')
+                if body.startswith('['):
+                    u[name] = json.loads(body)
+        if set(u) != {'U1', 'U2S', 'NU1', 'NU2S'}:
+            raise MachineryError('universe export incomplete: ' + str(sorted(u)))
+        json.dump(u, open(cache, 'w'))
+    _UNIV = json.load(open(cache))
+    return _UNIV
+
+
 # ---------------------------------------------------------------------------
 # Terms: JSON dict (the shape of the TLA+ records)  <->  prefix text for Rust
 # ---------------------------------------------------------------------------
@@ -298,16 +345,17 @@ class Verdict:
             self.cov['samples'].append(s)
 
     def finish(self) -> int:
-        os.makedirs(os.path.join(VERIF, 'evidence'), exist_ok=True)
+        evdir = os.environ.get('PI2_EVIDENCE_DIR', os.path.join(VERIF, 'evidence'))
+        os.makedirs(evdir, exist_ok=True)
         for kid, (k, n) in sorted(self.known_hit.items()):
             print(f"KNOWN-FINDING: property={self.pid} {k['what']} [{kid}; {n} observation(s)]")
         rc = 0
         if self.violations:
             rc = 1
-            rdir = os.path.join(VERIF, 'build', 'replay')
+            rdir = os.path.join(BUILD, 'replay')
             os.makedirs(rdir, exist_ok=True)
             seen = set()
-            for key, desc, replay in self.violations[:20]:
+            for key, desc, replay in self.violations[:8]:
                 if key in seen:
                     continue
                 seen.add(key)
@@ -317,7 +365,7 @@ class Verdict:
                     json.dump({'property': self.pid, 'key': key, 'what': desc, 'case': replay}, f, indent=1)
                 print(f'VIOLATION property={self.pid} replay={path}')
                 print(f'  {desc}'[:600])
-            if len(self.violations) > 20:
+            if len(self.violations) > 8:
                 print(f'  ... {len(self.violations)} non-conforming observations in total')
         cov = dict(self.cov)
         cov['states'] = max(1, cov['states'])
@@ -328,6 +376,6 @@ class Verdict:
               'assumptions': self.assumptions, 'wall_s': round(time.time() - self.t0, 2),
               'violations': len(self.violations),
               'known_findings_observed': {k: v[1] for k, v in self.known_hit.items()}}
-        with open(os.path.join(VERIF, 'evidence', self.pid + '.json'), 'w') as f:
+        with open(os.path.join(evdir, self.pid + '.json'), 'w') as f:
             json.dump(ev, f, indent=1)
         return rc
